@@ -26,6 +26,7 @@ def run(ctx, sess):
     ctx.rule('C16.2', 'every sample width the validator accepts has an arm in the defaults switch, and the common (annotation/utc) defaults are applied on every path')
     ctx.rule('C16.3', 'for every accepted width w, the samples-per-data multiple m satisfies m * w % 256 == 0')
     ctx.rule('C16.4', 'each of the four values stored back into the definition derives from max(field, MIN) and the required round-up')
+    ctx.rule('C16.8', 'the annotation and UTC decimation factors are at least 2 after normalisation (a level that holds a single entry would be committed upwards with every entry)')
     ctx.rule('C16.7', 'the divisibility established by the shrink loop is kept: its two variables are not modified between the loop exit and the values stored back')
     ctx.rule('C16.5', 'jls_wr_signal_def validates, then aligns, then serialises the aligned definition')
     ctx.rule('C16.6', 'every divisor in the normalisation arithmetic is >= 1 for every accepted width (interval evaluation)')
@@ -154,6 +155,27 @@ def run(ctx, sess):
                'applied on every path' if (w_ is None and sts) else
                'a path returns with %s possibly still 0 (widths without an arm): the time-series index buffer is then sized for 0 entries and the first annotation/UTC entry writes past it' % fld,
                w_.render() if w_ else None)
+    # ---- C16.8: the time-series decimation factors leave normalisation at 2 or more
+    for fld in ('annotation_decimate_factor', 'utc_decimate_factor'):
+        sts = [ev for ev in d.stores() if strip_casts(ev.store_parts()[0]).get('field') == fld]
+        last = sorted(sts, key=lambda e_: (e_.ln, e_.idx))[-1:] if sts else []
+        okm = False
+        how = 'no store'
+        for ev in last:
+            rhs = strip_casts(ev.store_parts()[1]) if ev.store_parts()[1] is not None else None
+            if rhs is not None and rhs.get('op') == 'call' and rhs.get('callee') in P.functions and len(kids(rhs)) == 2:
+                from .c10b import _is_max
+                k_ = [const_of(a_) for a_ in kids(rhs)]
+                cmin = max([x for x in k_ if x is not None] or [0])
+                if _is_max(P, P.functions[rhs['callee']], fd) and cmin >= 2:
+                    # and it is the last word: post-dominates every other store of the field
+                    # every path to the exit passes this store, and no other store of the field follows it
+                    w1 = find_path(d, 'entry', lambda e2, facts, ev=ev: 'stop' if e2 is ev else None, on_exit=lambda facts: True, refine=False)
+                    w2 = find_path(d, ev, lambda e2, facts, ev=ev: 'target' if (e2 in sts and e2 is not ev) else None, refine=False)
+                    okm = w1 is None and w2 is None
+                    how = '%s = max(%s, %d) after every other store' % (fld, fld, cmin)
+        ctx.ob('C16.8', okm, d.name, 'minimum of %s' % fld, last[0].where() if last else d.where(),
+               how if okm else 'a factor of 1 (or 0 kept by a missing default) reaches the time-series writer: an index level that holds one entry is committed upwards with every entry, through all levels')
     # ---- C16.3
     a = P.fn('jls_core_signal_def_align')
     ctx.saw(a)
